@@ -196,6 +196,70 @@ func C12(r *core.Run) {
 			}
 		}
 		r.CaseN(n, n)
+		// ---- from idle: a wheel report (with any modifiers), then a motion report ----
+		// Nothing is held after a wheel impulse, exactly as on fresh state: motion carries no
+		// buttons, also when it is coded 32..34.
+		n = 0
+		for wcode := 64; wcode < 96; wcode++ {
+			if wcode&32 != 0 || wcode&3 > 1 {
+				continue // up/down only, all modifier sets
+			}
+			for _, mcode := range []int{32, 33, 34, 35, 36, 48} {
+				s := fmt.Sprintf("\x1b[<%d;3;3M\x1b[<%d;4;4M", wcode, mcode)
+				evs, left, pan := d.whole([]byte(s))
+				n++
+				if pan != nil || left != 0 || len(evs) != 2 || evs[0].T != "mouse" || evs[1].T != "mouse" {
+					fail("sgr:count", fmt.Sprintf("reports %q decode to %s (leftover %d, panic %v), expected two mouse events", s, evsStr(evs), left, pan), s)
+					return
+				}
+				if evs[1].Btn != tcell.ButtonNone {
+					fail("sgr:motion-after-wheel", fmt.Sprintf("reports %q: motion after a wheel impulse from idle carries buttons %#x, expected none (no press was reported)", s, int(evs[1].Btn)), s)
+					return
+				}
+			}
+		}
+		r.CaseN(n, n)
+		// ---- a lone ESC (the Esc key) directly in front of a report: the report keeps its own modifiers ----
+		n = 0
+		for _, code := range []int{0, 1, 2, 4, 16, 35, 64, 65} {
+			ref := refMouse(code)
+			for _, rep := range []string{fmt.Sprintf("\x1b[<%d;7;7M", code), string([]byte{0x1b, '[', 'M', byte(32 + code), 40, 40})} {
+				s := "\x1b" + rep
+				evs, left, pan := d.whole([]byte(s))
+				n++
+				var ms []NEv
+				for _, e := range evs {
+					if e.T == "mouse" {
+						ms = append(ms, e)
+					}
+				}
+				if pan != nil || left != 0 || len(ms) != 1 {
+					fail("esc-before-report:count", fmt.Sprintf("ESC followed by the report %q decodes to %s (leftover %d, panic %v), expected exactly one mouse event among them", rep, evsStr(evs), left, pan), s)
+					return
+				}
+				if ms[0].Mod != ref.mod {
+					fail("esc-before-report:modifiers", fmt.Sprintf("ESC followed by the report %q: the mouse event has modifiers %d, the report says %d", rep, ms[0].Mod, ref.mod), s)
+					return
+				}
+			}
+		}
+		r.CaseN(n, n)
+		// ---- two reports (or a report and text) in one read, every introducer style ----
+		n = 0
+		for _, a := range []string{"\x1b[<0;3;3M", "\x1b[<0;3;3m", string([]byte{0x1b, '[', 'M', 32, 40, 40}), string([]byte{0x1b, '[', 'M', 35, 41, 40})} {
+			for _, b := range []string{"\x1b[<2;9;9M", string([]byte{0x1b, '[', 'M', 34, 50, 41}), "x", "\x1b[A"} {
+				s := a + b
+				evs, left, pan := d.whole([]byte(s))
+				eb, _, _ := d.whole([]byte(b))
+				ea, _, _ := d.whole([]byte(a))
+				n++
+				if pan != nil || left != 0 || len(ea) != 1 || len(evs) != 1+len(eb) || evs[0].T != "mouse" || !evsEq(evs[1:], eb) {
+					fail("back-to-back", fmt.Sprintf("%q and %q in one read decode to %s; alone they decode to %s and %s", a, b, evsStr(evs), evsStr(ea), evsStr(eb)), s)
+					return
+				}
+			}
+		}
+		r.CaseN(n, n)
 		// ---- legacy X11 sweep ----
 		n = 0
 		step := 1
@@ -403,6 +467,20 @@ func c12eightbit(r *core.Run) {
 			}
 		}
 		r.CaseN(n, n)
+		// legacy reports behind the 8-bit CSI are one byte shorter: what follows in the same read
+		// is decoded on its own
+		for _, b := range []string{string([]byte{0x9b, 'M', 35, 44, 40}), string([]byte{0x1b, '[', 'M', 34, 50, 41}), "x", "\x9b<0;2;2M"} {
+			a := string([]byte{0x9b, 'M', 32, 40, 40})
+			evs, left, pan := d.whole([]byte(a + b))
+			ea, _, _ := d.whole([]byte(a))
+			eb, _, _ := d.whole([]byte(b))
+			if len(ea) == 1 && ea[0].T == "mouse" {
+				if pan != nil || left != 0 || len(evs) != 1+len(eb) || evs[0].T != "mouse" || !evsEq(evs[1:], eb) {
+					r.Violate("back-to-back:8bit-legacy:"+cs, fmt.Sprintf("xterm/%s: %q and %q in one read decode to %s; alone they decode to %s and %s", cs, a, b, evsStr(evs), evsStr(ea), evsStr(eb)), nil)
+				}
+				r.CaseN(1, 1)
+			}
+		}
 	}
 	c12live(r)
 }
